@@ -35,6 +35,9 @@ func (k *recEnv) tag(err error) string {
 }
 
 func (k *recEnv) tryStr(t fp.Try[int]) string {
+	if bad := tryViewsDisagree(t); bad != "" {
+		return "inconsistent Try: " + bad
+	}
 	if t.IsSuccess() {
 		return fmt.Sprintf("S(%d)", t.Get())
 	}
